@@ -227,7 +227,9 @@ struct Shape {
     np: u32,   // params
     hx: u32,   // additional header words HEADER D 18 .. D 17+hx (238 gives the maximal header, lh = 256)
     lhcut: u32, // when 2..17: the header of t0 is cut down to that many words (only a hand-edited .tfm has such a header)
-    odd: u32,  // oddities: 1 trailing LABEL without a step, 2 SKIP past the end of the table, 4 LABEL of a character that has no CHARACTER entry, 8 labelled character that also has NEXTLARGER, 16 a CHARACTER entry given twice
+    vx: u32,   // systematic VARCHAR recipes over a tiny piece alphabet: that many characters (>= 1000: enumerate all recipes)
+    va: u32,   // size of the piece alphabet (2 or 3)
+    odd: u32,  // oddities (32: a chain with SKIP D 126/127 over labelled steps; 64: seven-bit discipline, flag TRUE): 1 trailing LABEL without a step, 2 SKIP past the end of the table, 4 LABEL of a character that has no CHARACTER entry, 8 labelled character that also has NEXTLARGER, 16 a CHARACTER entry given twice
     hdr: u32,  // header flavour bits: 1 scheme, 2 family, 4 face, 8 sevenbit flag, 16 extra words, 32 explicit checksum, 64 math sy scheme, 128 math ex
     xc: Vec<u32>, // indices of characters removed after generation (shrinking)
     xl: Vec<u32>, // indices of LIGTABLE items removed after generation (shrinking)
@@ -255,6 +257,8 @@ impl Shape {
             ("np", self.np as u64),
             ("hdr", self.hdr as u64),
             ("odd", self.odd as u64),
+            ("vx", self.vx as u64),
+            ("va", self.va as u64),
             ("hx", self.hx as u64),
             ("lhcut", self.lhcut as u64),
         ]
@@ -302,6 +306,8 @@ impl Shape {
             np: g("np") as u32,
             hdr: g("hdr") as u32,
             odd: g("odd") as u32,
+            vx: g("vx") as u32,
+            va: g("va") as u32,
             hx: g("hx") as u32,
             lhcut: g("lhcut") as u32,
             xc: l("xc"),
@@ -348,7 +354,9 @@ impl Shape {
             nv: *r.pick(&[0u32, 0, 1, 2, 5, 255, 256]),
             np: *r.pick(&[0u32, 0, 1, 7, 8, 13, 22, 30, 253, 254]),
             hdr: r.below(256) as u32,
-            odd: if r.chance(1, 5) { 1 << r.below(5) } else { 0 },
+            odd: if r.chance(1, 4) { 1 << r.below(7) } else { 0 },
+            vx: *r.pick(&[0u32, 0, 0, 2, 3, 6, 12, 40]),
+            va: 2 + r.below(2) as u32,
             hx: *r.pick(&[0u32, 0, 0, 0, 0, 0, 1, 2, 100, 235, 236, 237, 238]),
             lhcut: *r.pick(&[0u32, 0, 0, 0, 0, 0, 0, 0, 0, 2, 3, 11, 12, 16, 17]),
             xc: vec![],
@@ -486,11 +494,22 @@ fn gen_font(sh: &Shape) -> GFont {
             }
             v
         };
+        let low: Vec<u8> = codes.iter().copied().filter(|c| *c < 128).collect();
+        let high: Vec<u8> = codes.iter().copied().filter(|c| *c >= 128).collect();
         let gen_step = |r: &mut Rng, f: &mut GFont| {
             let right = *r.pick(&rights);
             if r.below(100) < sh.lig as u64 {
                 let post = if r.chance(2, 3) { 7 } else { r.below(8) as u8 };
-                f.lig.push(LItem::Lig(post, right, *r.pick(&codes)));
+                // seven-bit discipline (odd & 64): a seven-bit right character gets a seven-bit
+                // result, an eight-bit right character an eight-bit one - the font stays
+                // seven-bit safe although it has steps that insert eight-bit characters
+                let ins = if sh.odd & 64 != 0 {
+                    let pool = if right < 128 { &low } else { &high };
+                    if pool.is_empty() { right } else { *r.pick(pool) }
+                } else {
+                    *r.pick(&codes)
+                };
+                f.lig.push(LItem::Lig(post, right, ins));
             } else {
                 let k = match r.below(6) {
                     0 => 0,
@@ -515,6 +534,24 @@ fn gen_font(sh: &Shape) -> GFont {
                 f.lig.push(LItem::Label(c));
                 tagged.insert(c);
             }
+        }
+        if sh.odd & 32 != 0 && free.len() >= 2 {
+            // SKIP at the format's limit: (LABEL a) step (SKIP D 126|127) (LABEL b) 126|127 steps, step, STOP
+            let k = 126 + (sh.seed % 2) as u8;
+            let mut sr = Rng::new(sh.seed ^ 0x5c19);
+            let a = free.pop().unwrap();
+            let b = free.pop().unwrap();
+            tagged.insert(a);
+            tagged.insert(b);
+            f.lig.push(LItem::Label(a));
+            f.lig.push(LItem::Krn(codes[0], 4321));
+            f.lig.push(LItem::Skip(k));
+            f.lig.push(LItem::Label(b));
+            for j in 0..k as usize {
+                f.lig.push(LItem::Krn(codes[(j + 1) % codes.len()], sr.range(-100000, 100000) as i32));
+            }
+            f.lig.push(LItem::Krn(codes[codes.len() - 1], 77777));
+            f.lig.push(LItem::Stop);
         }
         for _ in 0..sh.pad {
             gen_step(&mut r, &mut f);
@@ -579,7 +616,8 @@ fn gen_font(sh: &Shape) -> GFont {
     // --- NEXTLARGER chains (ascending codes: no cycles) and VARCHAR recipes
     let untagged: Vec<usize> = (0..f.chars.len()).filter(|i| !tagged.contains(&f.chars[*i].code)).collect();
     let mut ut = untagged.clone();
-    for _ in 0..sh.nl {
+    let (n_nl, n_nv) = if sh.odd & 64 != 0 { (0, 0) } else { (sh.nl, sh.nv) };
+    for _ in 0..n_nl {
         if ut.len() < 1 || codes.len() < 2 {
             break;
         }
@@ -590,7 +628,7 @@ fn gen_font(sh: &Shape) -> GFont {
             f.chars[i].tag = GTag::Next(f.chars[j].code);
         }
     }
-    for _ in 0..sh.nv {
+    for _ in 0..n_nv {
         if ut.is_empty() {
             break;
         }
@@ -611,6 +649,29 @@ fn gen_font(sh: &Shape) -> GFont {
         };
         let (t, m, b) = (piece(&mut r), piece(&mut r), piece(&mut r));
         f.chars[i].tag = GTag::Var(t, m, b, *r.pick(&codes));
+    }
+    // systematic VARCHAR recipes: pieces from a tiny alphabet in every slot combination, so that
+    // identical recipes, equal pieces in different slots and permutations are all frequent
+    if sh.vx > 0 {
+        let alpha: Vec<u8> = codes.iter().copied().filter(|c| *c != 0).take(sh.va.clamp(2, 3) as usize).collect();
+        if alpha.len() >= 2 {
+            let a = alpha.len() as u64;
+            let total = (a + 1).pow(3) * a;
+            let mut vr = Rng::new(sh.seed ^ 0x7ec1);
+            let slots: Vec<usize> = (0..f.chars.len()).filter(|i| matches!(f.chars[*i].tag, GTag::None) && !tagged.contains(&f.chars[*i].code)).collect();
+            let n = if sh.vx >= 1000 { slots.len().min(total as usize) } else { (sh.vx as usize).min(slots.len()) };
+            for (j, &i) in slots.iter().take(n).enumerate() {
+                let mut x = if sh.vx >= 1000 { j as u64 } else { vr.below(total) };
+                let mut piece = |x: &mut u64| -> Option<u8> {
+                    let d = *x % (a + 1);
+                    *x /= a + 1;
+                    if d == 0 { None } else { Some(alpha[d as usize - 1]) }
+                };
+                let (t, m, b) = (piece(&mut x), piece(&mut x), piece(&mut x));
+                let rp = alpha[(x % a) as usize];
+                f.chars[i].tag = GTag::Var(t, m, b, rp);
+            }
+        }
     }
     if sh.odd & 8 != 0 && f.chars.len() >= 2 {
         if let Some(i) = (0..f.chars.len() - 1).find(|i| tagged.contains(&f.chars[*i].code)) {
@@ -662,7 +723,7 @@ fn gen_font(sh: &Shape) -> GFont {
     if h & 32 != 0 {
         f.head.push(format!("(CHECKSUM O {:o})", r.next_u64() as u32));
     }
-    if h & 8 != 0 && h & 4 != 0 {
+    if (h & 8 != 0 && h & 4 != 0) || (sh.odd & 64 != 0 && sh.vx == 0) {
         f.head.push("(SEVENBITSAFEFLAG TRUE)".into());
     }
     let np = if math_sy && r.chance(9, 10) {
@@ -835,6 +896,96 @@ fn perturb_layout(file: &mut tfm::File, seed: u64) {
 }
 
 // ------------------------------------------------------------------------------------------
+// An independent, byte-level view of a .tfm (no code of /repo involved): the sub-files are
+// located through the twelve size words; lig/kern words stay raw 4-byte words for Lean.
+// ------------------------------------------------------------------------------------------
+
+struct RawView {
+    /// `<n> words <m> (char remainder) <k> kerns` as the driver's `<raw>`
+    raw: Vec<i64>,
+    /// NEXTLARGER of the existing characters, `(char, next)`
+    lists: Vec<(u8, u8)>,
+    /// extensible recipes of the existing characters, `(char, [top, mid, bot, rep])`
+    recipes: Vec<(u8, [u8; 4])>,
+    /// header byte 68 (> 127 = SEVENBITSAFEFLAG TRUE), when the header has it
+    flag: Option<bool>,
+    max_skip: u8,
+}
+
+fn raw_view(t: &[u8]) -> Option<RawView> {
+    if t.len() < 24 {
+        return None;
+    }
+    let w = |i: usize| u16::from_be_bytes([t[2 * i], t[2 * i + 1]]) as usize;
+    let (lf, lh, bc, ec, nw, nh, nd, ni, nl, nk, ne, np) = (w(0), w(1), w(2), w(3), w(4), w(5), w(6), w(7), w(8), w(9), w(10), w(11));
+    let nc = if ec + 1 >= bc { ec + 1 - bc } else { 0 };
+    if t.len() < 4 * lf || lf != 6 + lh + nc + nw + nh + nd + ni + nl + nk + ne + np || ec > 255 {
+        return None;
+    }
+    let ci = 24 + 4 * lh;
+    let lk = ci + 4 * (nc + nw + nh + nd + ni);
+    let kb = lk + 4 * nl;
+    let eb = kb + 4 * nk;
+    let mut raw: Vec<i64> = vec![nl as i64];
+    let mut max_skip = 0u8;
+    for i in 0..nl {
+        let b = &t[lk + 4 * i..lk + 4 * i + 4];
+        raw.extend(b.iter().map(|x| *x as i64));
+        if b[0] < 128 {
+            max_skip = max_skip.max(b[0]);
+        }
+    }
+    let mut ligs: Vec<(u8, u8)> = vec![];
+    let mut lists = vec![];
+    let mut recipes = vec![];
+    for k in 0..nc {
+        let b = &t[ci + 4 * k..ci + 4 * k + 4];
+        if b[0] == 0 {
+            continue; // the character does not exist
+        }
+        let c = (bc + k) as u8;
+        match b[2] % 4 {
+            1 => ligs.push((c, b[3])),
+            2 => lists.push((c, b[3])),
+            3 => {
+                let j = b[3] as usize;
+                if j < ne {
+                    let r = &t[eb + 4 * j..eb + 4 * j + 4];
+                    recipes.push((c, [r[0], r[1], r[2], r[3]]));
+                }
+            }
+            _ => {}
+        }
+    }
+    raw.push(ligs.len() as i64);
+    for (c, r) in &ligs {
+        raw.extend([*c as i64, *r as i64]);
+    }
+    raw.push(nk as i64);
+    for i in 0..nk {
+        let b = &t[kb + 4 * i..kb + 4 * i + 4];
+        raw.push(i32::from_be_bytes([b[0], b[1], b[2], b[3]]) as i64);
+    }
+    let flag = if lh >= 18 { Some(t[24 + 68] > 127) } else { None };
+    Some(RawView { raw, lists, recipes, flag, max_skip })
+}
+
+/// PLtoTF's seven-bit safety of the font in `v`, decided by Lean (`safe7`).
+fn lean_safe7(v: &RawView, drv: &mut Driver) -> bool {
+    let mut q = v.raw.clone();
+    q.push(v.lists.len() as i64);
+    for (c, n) in &v.lists {
+        q.extend([*c as i64, *n as i64]);
+    }
+    q.push(v.recipes.len() as i64);
+    for (c, r) in &v.recipes {
+        q.push(*c as i64);
+        q.extend(r.iter().map(|x| *x as i64));
+    }
+    drv.ask(&format!("safe7 {}", join(&q))) == "1"
+}
+
+// ------------------------------------------------------------------------------------------
 // Decoded view of a .tfm for the field-by-field comparison
 // ------------------------------------------------------------------------------------------
 
@@ -919,6 +1070,8 @@ fn run_pair(p: &tfm::ligkern::CompiledProgram, l: Option<Char>, r: Option<Char>)
 // ------------------------------------------------------------------------------------------
 
 struct C11 {
+    /// A raw-word rule difference found before the defect class of the case is known.
+    pending_raw: Option<String>,
     /// Suffix for failure signatures of the current case (identifies a known defect class).
     sig_suffix: String,
     corpus_tfm: Vec<String>,
@@ -1030,22 +1183,7 @@ impl C11 {
             out.tag(format!("t0:tftopl-warns (outside quantifier): {}", sig.trim()));
             return;
         }
-        let (t1, w1) = match caught(|| real_pltotf(&pl0)) {
-            Err(p) => {
-                out.fail(Kind::ImplPanic, "trip1", format!("panic {}", strip_msg(&p)), format!("pl_to_tfm(tfm_to_pl(t0)) panicked: {p}\nt0 = {}", hex(t0)));
-                return;
-            }
-            Ok(x) => x,
-        };
-        if !w1.is_empty() {
-            // "converts without warnings" covers both halves of the first conversion: a file
-            // whose tftopl output pltotf does not read back silently (more than 254 parameters,
-            // a seven-bit-safe flag that is set on a font that is not) is outside the quantifier.
-            out.tag(format!("t0:pltotf-warns-on-tftopl-output ({}) (outside quantifier)", w1[0]));
-            return;
-        }
-        out.tag("t0:in-quantifier");
-        out.nontrivial = true;
+        let mut class_tags: Vec<&'static str> = vec![];
         // Known defect class C11-b: a LABEL that no step follows (entry point = number of
         // instructions). Failures of such a case carry a suffix so that the known finding
         // cannot hide a different defect.
@@ -1055,7 +1193,7 @@ impl C11 {
             let dangling = plf.lig_kern_entrypoints(true).values().any(|e| *e as usize >= n)
                 || plf.lig_kern_program.left_boundary_char_entrypoint.map(|e| e as usize >= n).unwrap_or(false);
             if dangling {
-                out.tag("t0:label-without-steps");
+                class_tags.push("t0:label-without-steps");
                 self.sig_suffix = " [label without steps]".into();
             }
         }
@@ -1071,8 +1209,88 @@ impl C11 {
                 .zip(prog.instructions.iter())
                 .any(|(r, i)| matches!(r, tfm::ligkern::lang::ReachableIterItem::Reachable { .. }) && matches!(i.operation, Operation::EntrypointRedirect(..)))
         }) {
-            out.tag("t0:reachable-redirect-word");
+            class_tags.push("t0:reachable-redirect-word");
             self.sig_suffix.push_str(" [reachable redirect word]");
+        }
+        let (t1, w1) = match caught(|| real_pltotf(&pl0)) {
+            Err(p) => {
+                out.fail(Kind::ImplPanic, "trip1", format!("panic {}", strip_msg(&p)), format!("pl_to_tfm(tfm_to_pl(t0)) panicked: {p}\nt0 = {}", hex(t0)));
+                return;
+            }
+            Ok(x) => x,
+        };
+        // Seven-bit safety (S by Lean on the raw bytes of t0): pltotf must raise
+        // NotReallySevenBitSafe on tftopl's output exactly when t0 carries the flag and the font
+        // is not safe by PLtoTF's definition.
+        let rv0 = raw_view(t0);
+        let safe0 = rv0.as_ref().map(|v| lean_safe7(v, drv));
+        let warned7 = w1.iter().any(|w| w == "NotReallySevenBitSafe");
+        if let (Some(v), Some(safe)) = (&rv0, safe0) {
+            let flagged = v.flag == Some(true);
+            out.tag(format!("seven-bit: flag={} safe={}", flagged as u8, safe as u8));
+            if warned7 && !(flagged && !safe) {
+                out.fail(
+                    Kind::ImplVsSpec,
+                    "seven-bit",
+                    "NotReallySevenBitSafe raised although the font is seven-bit safe (or not flagged)",
+                    format!("flag in t0: {flagged}, safe7 (Lean): {safe}; warnings: {w1:?}"),
+                );
+                return;
+            }
+            if !warned7 && flagged && !safe {
+                out.fail(
+                    Kind::ImplVsSpec,
+                    "seven-bit",
+                    "a flagged font that is not seven-bit safe converts without NotReallySevenBitSafe",
+                    format!("flag in t0: {flagged}, safe7 (Lean): {safe}"),
+                );
+            }
+        }
+        if !w1.is_empty() {
+            // "converts without warnings" covers both halves of the first conversion: a file
+            // whose tftopl output pltotf does not read back silently (more than 254 parameters,
+            // a seven-bit-safe flag that is set on a font that is not) is outside the quantifier.
+            out.tag(format!("t0:pltotf-warns-on-tftopl-output ({}) (outside quantifier)", w1[0]));
+            return;
+        }
+        out.tag("t0:in-quantifier");
+        out.nontrivial = true;
+        for t in class_tags {
+            out.tag(t);
+        }
+        let rv1 = raw_view(&t1);
+        if let (Some(safe), Some(v1)) = (safe0, &rv1) {
+            if v1.flag != Some(safe) {
+                out.fail(
+                    Kind::ImplVsSpec,
+                    "seven-bit",
+                    "seven-bit-safe flag of t1 is not the safety of the font",
+                    format!("safe7 (Lean, on t0): {safe}; flag byte of t1 set: {:?}", v1.flag),
+                );
+            }
+        }
+        // The lig/kern programs of t0 and t1 decoded by Lean from the raw words (independent of the
+        // Rust reader): same rule on every pair and boundary.
+        if let (Some(v0), Some(v1)) = (&rv0, &rv1) {
+            if v0.max_skip >= 126 {
+                out.tag(format!("raw:skip-byte-{}", v0.max_skip));
+            }
+            if v0.raw != v1.raw {
+                let reply = drv.ask(&format!("rawsem {} {}", join(&v0.raw), join(&v1.raw)));
+                if reply != "same" {
+                    self.pending_raw = Some(reply);
+                } else {
+                    out.tag("raw:rule-compared");
+                }
+            }
+        }
+        if let Some(reply) = self.pending_raw.take() {
+            out.fail(
+                Kind::ImplVsSpec,
+                "ligkern-raw",
+                "C05.rule of the raw lig/kern words differs between t0 and t1",
+                reply,
+            );
         }
         dump("t0.tfm", t0);
         dump("pl0.pl", pl0.as_bytes());
@@ -1602,6 +1820,40 @@ fn shape_t0_uncut(sh: &Shape, raw: bool) -> Result<Vec<u8>, String> {
             return Err(format!("{:?}", w[0].kind));
         }
         let mut file: tfm::File = plf.into();
+        // The extensible sub-file is laid out by the harness itself, from the generated font (not by
+        // `From<pl::File>`): one recipe per character, or identical recipes shared (odd seeds).
+        let vars: Vec<(u8, tfm::ExtensibleRecipe)> = {
+            let mut m: BTreeMap<u8, tfm::ExtensibleRecipe> = BTreeMap::new();
+            for c in &f.chars {
+                match &c.tag {
+                    GTag::Var(t, mi, b, rp) => {
+                        m.insert(c.code, tfm::ExtensibleRecipe { top: t.map(Char), middle: mi.map(Char), bottom: b.map(Char), rep: Char(*rp) });
+                    }
+                    _ => {
+                        m.remove(&c.code);
+                    }
+                }
+            }
+            m.into_iter().collect()
+        };
+        let consistent = sh.odd == 0
+            && vars.iter().all(|(c, _)| matches!(file.char_tags.get(&Char(*c)), Some(tfm::CharTag::Extension(_))))
+            && file.char_tags.values().filter(|t| matches!(t, tfm::CharTag::Extension(_))).count() == vars.len();
+        if consistent && !vars.is_empty() {
+            let share = sh.seed % 2 == 1;
+            let mut table: Vec<tfm::ExtensibleRecipe> = vec![];
+            for (c, r) in &vars {
+                let idx = match table.iter().position(|x| x == r) {
+                    Some(i) if share => i,
+                    _ => {
+                        table.push(r.clone());
+                        table.len() - 1
+                    }
+                };
+                file.char_tags.insert(Char(*c), tfm::CharTag::Extension(idx as u8));
+            }
+            file.extensible_chars = table;
+        }
         perturb_layout(&mut file, sh.seed);
         Ok(file.serialize())
     } else {
@@ -1672,6 +1924,37 @@ impl Property for C11 {
         // large lig/kern and kern sub-files (reachable: the leading run is labelled for even seeds)
         v.push(Shape { nc: 40, nw: 4, chains: 20, len: 3, labels: 2, pad: 6000, lig: 10, seed: 800, ..base.clone() }.show("gen"));
         v.push(Shape { nc: 40, nw: 4, chains: 20, len: 3, labels: 2, pad: 14000, lig: 0, bc: 1, lb: 1, seed: 802, ..base.clone() }.show("gen"));
+        // VARCHAR: every recipe over a 2- and a 3-character piece alphabet (54 / 192 recipes), and random draws
+        for (va, nc) in [(2u32, 60u32), (3, 200)] {
+            v.push(Shape { nc, nw: 3, vx: 1000, va, seed: 900 + va as u64, ..base.clone() }.show("gen"));
+            v.push(Shape { nc, nw: 3, vx: 1000, va, seed: 910 + va as u64, ..base.clone() }.show("raw"));
+            v.push(Shape { nc, nw: 3, vx: 1000, va, seed: 921 + va as u64, ..base.clone() }.show("raw"));
+        }
+        for k in 0..6u64 {
+            v.push(Shape { nc: 12, nw: 3, vx: 8, va: 2, seed: 930 + k, ..base.clone() }.show(if k % 2 == 0 { "raw" } else { "gen" }));
+        }
+        // SKIP counts at the format's limits, through PL ...
+        for seed in [940u64, 941] {
+            v.push(Shape { nc: 140, nw: 3, odd: 32, seed, ..base.clone() }.show("gen"));
+            v.push(Shape { nc: 140, nw: 3, odd: 32, chains: 3, len: 2, labels: 1, bc: 1, lb: 1, seed: seed + 2, ..base.clone() }.show("raw"));
+        }
+        // ... and through hand-built TFM-level programs: word 0 skips K words, all of them labelled
+        for k in [0usize, 1, 2, 125, 126, 127] {
+            let n = k + 2;
+            let mut w: Vec<i64> = vec![-1, -1, n as i64];
+            w.extend([k as i64, 1, 0, 100, 0]);
+            for i in 1..=k {
+                w.extend([0, 2 + (i % 50) as i64, 0, 1000 + i as i64, 0]);
+            }
+            w.extend([-1, 200, 0, 555, 0]);
+            w.extend([2, 65, 0, 66, if k > 0 { 1 } else { 0 }]);
+            w.push(0);
+            v.push(format!("tprog {}", join(&w)));
+        }
+        // seven-bit discipline: flagged fonts whose eight-bit ligature results only follow eight-bit right characters
+        for seed in [950u64, 951, 952, 953] {
+            v.push(Shape { nc: 256, nw: 3, chains: 40, len: 4, labels: 2, lig: 60, odd: 64, hdr: 0b0000_0111, seed, ..base.clone() }.show("gen"));
+        }
         for n in [0, 1, 2, 200, 254, 255, 256] {
             v.push(format!("redir {n} -1"));
             v.push(format!("redir {n} 65"));
@@ -1903,6 +2186,47 @@ impl Property for C11 {
                     Ok(Ok(t0)) => {
                         if sh.pad + sh.chains * sh.len > 255 {
                             out.tag("gen:may-exceed-255-instr");
+                        }
+                        // S on the source side: every VARCHAR the property list states is the recipe
+                        // t0 holds for that character, slot by slot.
+                        if sh.odd == 0 {
+                            let f = gen_font(&sh);
+                            let n_var = f.chars.iter().filter(|c| matches!(c.tag, GTag::Var(..))).count();
+                            if n_var > 0 {
+                                if let Ok(Ok(d)) = caught(|| decode(&t0)) {
+                                    let mut distinct: BTreeSet<(Option<u8>, Option<u8>, Option<u8>, u8)> = BTreeSet::new();
+                                    let mut same_pieces_other_slots = false;
+                                    let mut pieces_seen: Vec<(Vec<u8>, (Option<u8>, Option<u8>, Option<u8>, u8))> = vec![];
+                                    for c in &f.chars {
+                                        if let GTag::Var(t, m, b, rp) = &c.tag {
+                                            let want = tfm::ExtensibleRecipe { top: t.map(Char), middle: m.map(Char), bottom: b.map(Char), rep: Char(*rp) };
+                                            let got = d.tags.get(&c.code);
+                                            if got != Some(&TagView::Ext(Some(want.clone()))) {
+                                                out.fail(
+                                                    Kind::ImplVsSpec,
+                                                    "source",
+                                                    "pl_to_tfm: the VARCHAR recipe of a character is not the one in the property list",
+                                                    format!("char {}: property list {want:?}, t0 {got:?}", c.code),
+                                                );
+                                                break;
+                                            }
+                                            let key = (*t, *m, *b, *rp);
+                                            let pcs: Vec<u8> = [*t, *m, *b, Some(*rp)].into_iter().flatten().collect();
+                                            if pieces_seen.iter().any(|(p, k)| *p == pcs && *k != key) {
+                                                same_pieces_other_slots = true;
+                                            }
+                                            pieces_seen.push((pcs, key));
+                                            distinct.insert(key);
+                                        }
+                                    }
+                                    if distinct.len() < n_var {
+                                        out.tag("ext:identical-recipes");
+                                    }
+                                    if same_pieces_other_slots {
+                                        out.tag("ext:same-pieces-different-slots");
+                                    }
+                                }
+                            }
                         }
                         self.round_trip(&t0, drv, &mut out);
                     }
@@ -2156,6 +2480,7 @@ impl Property for C11 {
                 field!(np);
                 field!(hdr);
                 field!(odd);
+                field!(vx);
                 field!(hx);
                 field!(lhcut);
                 field!(nh);
@@ -2344,5 +2669,5 @@ fn main() {
         repo
     };
     let (corpus_tfm, corpus_pl) = list_corpus(&repo);
-    run(C11 { sig_suffix: String::new(), corpus_tfm, corpus_pl, repo });
+    run(C11 { pending_raw: None, sig_suffix: String::new(), corpus_tfm, corpus_pl, repo });
 }
